@@ -74,8 +74,9 @@ def check(run):
     run.assumptions += [
         "strings are abstracted to (length, token ids); URL/ref contents contain no ','",
         "pre-set containerd.io/snapshot/remote/* annotations on layer descriptors are covered for 2-layer manifests (one or two keys, "
-        "foreign value); for the EXTRA handler, which keeps pre-set urls/urls.<j>/prefetch keys by design, the URL and prefetch clauses "
-        "are claimed only for keys that were not pre-set (the keeping is pinned by ExtraKeepsPreset + conformance)",
+        "foreign value); the exhaustive runs check the repaired design (ExtraStripsPreset=TRUE), the pinned design (FALSE: the extra "
+        "handler keeps pre-set urls/urls.<j>/prefetch keys) is a negative control and the conformance setting; on the pinned code the "
+        "monitor reports those cases (known finding :fl=extra:preset)",
         "label sizes next to the limit (4094..4097) are covered for urls and urls.<i> (i < 10); the layers labels cannot land there: "
         "digest strings step the size by 72 bytes (4074 -> 4146), so a +-1 error in that loop is unobservable with valid digests",
         "equal digests have the same media type class; config digest differs from all layer digests",
@@ -120,17 +121,20 @@ def check(run):
             run.tlc_mc("Labels", "Labels_mc_full.cfg", {"MaxLayers": "4", "MatchedOnly": "TRUE", "Readers": '{"default", "cri"}'}, workers=4, timeout=3000, name="full<=4")
             run.tlc_mc("Labels", "Labels_mc_long.cfg", None, workers=4, timeout=3000, name="long all-readers")
         # vacuity guards: each property-bearing guard of the code switched off must break a C20 formula
-        for cfg, off, expect in (
+        for cfg, off, expect, *more in (
                 ("Labels_mc_long.cfg", {"ValidateLayers": "FALSE", "LongNs": "{60}"}, ["AllLabelsValid"]),
                 ("Labels_mc_full.cfg", {"ValidateUrls": "FALSE", "MaxLayers": "2"}, ["AllLabelsValid"]),
                 ("Labels_mc_edge.cfg", {"CountSeparator": "FALSE"}, ["AllLabelsValid"]),
                 ("Labels_mc_edge.cfg", {"WriteEmptyUrlLabels": "FALSE"}, ["RoundTrip", "NeighbourUrlsPositional"]),
+                # the pinned extra handler keeps manifest-supplied urls / prefetch annotations (known finding :fl=extra:preset)
+                ("Labels_mc_edge.cfg", {"ExtraStripsPreset": "FALSE"}, ["PrefetchSizeRoundTrips"]),
+                ("Labels_mc_edge.cfg", {"ExtraStripsPreset": "FALSE", "MatchedOnly": "TRUE"}, ["RoundTrip", "NeighbourUrlsPositional"], ("PrefetchSizeRoundTrips",)),
                 ("Labels_mc_long.cfg", {"WholeDigests": "FALSE", "LongNs": "{60}"}, ["RoundTrip"]),
                 ("Labels_mc_full.cfg", {"UrlIdx": '"child"'}, ["RoundTrip", "NeighbourUrlsPositional"]),
                 ("Labels_mc_full.cfg", {"ReaderSkipsTarget": "FALSE", "MaxLayers": "2"}, ["RoundTrip"]),
                 ("Labels_mc_tamper.cfg", {"ReaderChecksDigest": "FALSE", "MaxTamper": "1"}, ["MalformedMandatoryRejected"]),
                 ("Labels_mc_tamper.cfg", {"ReaderChecksRef": "FALSE", "MaxTamper": "1"}, ["MalformedMandatoryRejected"])):
-            run.tlc_negctl("Labels", cfg, off, expect, drop=INTERNAL)
+            run.tlc_negctl("Labels", cfg, off, expect, drop=INTERNAL + (more[0] if more else ()))
 
     # ---------------------------------------------------------------- R: replay every case into the real code
     seen = set()
@@ -215,7 +219,7 @@ def check(run):
         return bool(c["tam"]) or any(not x["isLayer"] for x in c["man"]) or len({x["d"] for x in c["man"]}) < len(c["man"]) \
             or any(x["urls"] for x in c["man"]) or len(c["man"]) > 50 or any(x.get("pre") for x in c["man"])
     run.cov["distinct_nontrivial"] += sum(1 for i in ok_ids if nontrivial(byid[i], evbyid[i]))
-    run.cov["exhaustive"] = not drifts and not viols
+    run.cov["exhaustive"] = not drifts
     small = [e for e in events if len(e["case"]["man"]) <= 3 and e["id"] in set(ok_ids)]
     pick = [e for e in small if e["case"]["tam"]][:1] + [e for e in small if any(not x["isLayer"] for x in e["case"]["man"]) and e["res"]["neigh"]][:1] \
         + [e for e in small if e["case"]["fl"] == "extra" and len(e["case"]["man"]) == 3][:1]
